@@ -23,7 +23,7 @@ def run(ck):
     if not core.ensure_built(ck):
         return ck.finish(**FINISH)
     quick = ck.tier == "quick"
-    stats, mism = idecorr.run_streams(["sem", "grammar"], 120 if quick else 1500, seed=ck.seed + 18, oplog=True)
+    stats, mism = idecorr.run_streams(["sem", "grammar", "odd"], 120 if quick else 1500, seed=ck.seed + 18, oplog=True)
     for s, st in stats.items():
         ck.count("model-" + s, st["cases"], set(range(st["agree"])), queries=st["queries"], model_disagreements=st["mismatch"])
     for m in mism[:3]:
